@@ -1,7 +1,7 @@
 (* C06 property theorems.  Nothing but statements closed by `exact`, a pin, and
    Print Assumptions.  The driver parses this file's output. *)
 From ZV.Common Require Import Base.
-From ZV.C06 Require Import Model ModelGold ModelEasy ModelIdx Spec ProofsBasic ProofsScan ProofsRefine ProofsSmall ProofsGoldRefine ProofsEasy ProofsIdxRefine.
+From ZV.C06 Require Import Model ModelGold ModelEasy ModelIdx ModelFast Spec ProofsBasic ProofsScan ProofsRefine ProofsSmall ProofsGoldRefine ProofsEasy ProofsIdxRefine ProofsFast.
 Open Scope N_scope.
 
 (* normalize_hash never produces a slot marker, whatever the hasher returned *)
@@ -101,3 +101,31 @@ Theorem stub_refuted : exists ops, stub_run ops <> srun [] ops.
 Proof. exact stub_refuted_proof. Qed.
 Check stub_refuted : exists ops, stub_run ops <> srun [] ops.
 Print Assumptions stub_refuted.
+
+(* --- extension: SmallMap<u8, V>::get_fast, the vectorised key search (SIMD lanes and mask bits modelled) --- *)
+(* in every state a history can reach (at most 8 inline keys, or the promoted form), for every key, the vectorised
+   lookup - unrolled search up to 4 keys, above that one 16-lane byte compare, movemask, the lane mask
+   (1 << min(len, 8)) - 1 and trailing_zeros - returns exactly what the generic lookup returns *)
+Theorem get_fast_is_get :
+  forall (h : N -> N) (ops : list op) (k : N),
+    let sm := sm_exec h (Small []) ops in sm_get_fast true h sm k = sm_get h sm k.
+Proof. exact get_fast_is_get_proof. Qed.
+Check get_fast_is_get :
+  forall (h : N -> N) (ops : list op) (k : N),
+    let sm := sm_exec h (Small []) ops in sm_get_fast true h sm k = sm_get h sm k.
+Print Assumptions get_fast_is_get.
+
+(* SmallMap<u8> with every get answered by get_fast is a mathematical map, for every history *)
+Theorem smallmap_u8_refines_map :
+  forall (h : N -> N) (ops : list op), Forall2 obs_agree (smf_run true h (Small []) ops) (srun [] ops).
+Proof. exact smallmap_u8_refines_map_proof. Qed.
+Check smallmap_u8_refines_map :
+  forall (h : N -> N) (ops : list op), Forall2 obs_agree (smf_run true h (Small []) ops) (srun [] ops).
+Print Assumptions smallmap_u8_refines_map.
+
+(* the search before 3fcc283 (movemask not restricted to the lanes that hold keys) does not have the property:
+   insert 1..5; get_fast(0) finds the zero padding of the key buffer *)
+Theorem get_fast_unmasked_refuted : exists ops, smf_run false (hasher 0) (Small []) ops <> srun [] ops.
+Proof. exact get_fast_unmasked_refuted_proof. Qed.
+Check get_fast_unmasked_refuted : exists ops, smf_run false (hasher 0) (Small []) ops <> srun [] ops.
+Print Assumptions get_fast_unmasked_refuted.
